@@ -163,7 +163,12 @@ impl DepsGraph {
         let b_key = BorrowedDependency::Asset(&key);
         if let Some(entry) = self.0.get_mut(&b_key as &dyn Key) {
             if let Some(typ) = entry.typ {
-                let new_deps = cache.reload_untyped(id.clone(), typ);
+                // A panic while reloading is handled like a failed reload, so
+                // that the hot-reloading thread keeps answering requests
+                let new_deps = std::panic::catch_unwind(std::panic::AssertUnwindSafe(|| {
+                    cache.reload_untyped(id.clone(), typ)
+                }))
+                .unwrap_or(None);
 
                 if let Some(new_deps) = new_deps {
                     self.insert(Dependency::Asset(key), new_deps, typ);
